@@ -77,11 +77,14 @@ pub fn cmd_track() {
     let stdin = std::io::stdin();
     let stdout = std::io::stdout();
     let mut out = BufWriter::new(stdout.lock());
-    for line in stdin.lock().lines() {
+    let skip = crate::skip_arg();
+    let wd = crate::wd_start(20000);
+    for (hi, line) in stdin.lock().lines().enumerate() {
         let line = line.unwrap();
-        if line.trim().is_empty() {
+        if (hi as u64) < skip || line.trim().is_empty() {
             continue;
         }
+        crate::wd_begin(wd, hi as u64);
         let h: Value = serde_json::from_str(&line).expect("history json");
         let rx_lat = h["rx"][0].as_i64().unwrap();
         let rx_lon = h["rx"][1].as_i64().unwrap();
@@ -155,7 +158,9 @@ pub fn cmd_track() {
                 }
             }
         }
+        crate::wd_end();
         emit(&mut out, &json!({"ev": "end", "hist": h["id"], "wall_ms": t0.elapsed().as_millis() as u64}));
+        out.flush().unwrap();
     }
     out.flush().unwrap();
 }
